@@ -42,6 +42,7 @@ def gen_plan(seed, tier):
     plan['modes'] = ['solve', 'solve_step', 'steps', 'while'] if tier != 'quick' else (['solve'] + rng.sample(['solve_step', 'steps', 'while', 'while'], 1))
     plan['wrapper'] = rng.random() < 0.3
     plan['generators'] = rng.random() < 0.4
+    plan['nested_instance'] = rng.random() < 0.25
     if plan['limits'][0] is None:
         # run-to-convergence plans are long: a light map and the two modes that matter (run-to-completion vs the
         # caller's `while not Terminated(): Step()` loop)
@@ -219,9 +220,11 @@ def _run(plan, run, violate, stats):
             if ms.get('mode') == 'process' and m != 'solve' and ((plan.get('limits') or [None])[0] is None or plan['limits'][0] > 8): continue
             variants.append((ms, m))
     member_work = {}
+    # one user-configured nested instance handed to every ensemble of this run, one after the other
+    inst = ensembles.nested_instance(plan) if plan.get('nested_instance') else None
     for vi, (mspec, mode) in enumerate(variants):
         _random.seed(plan['lib_seed']); numpy.random.seed(plan['lib_seed'] % (2 ** 32))
-        s, peers = ensembles.build_ensemble(plan, run, mspec)
+        s, peers = ensembles.build_ensemble(plan, run, mspec, instance=inst)
         e0 = len(run.evals); b0 = run.ncross
         try:
             run.budget = b0 + 200000
